@@ -32,7 +32,7 @@ TRUSTED = [
     "harness/dtypeslib.py: the map between numpy/pandas dtype objects (or dtype texts) and the model's dtype universe; "
     "schema elements, pandas-metadata entries and row-group statistics as model arguments",
     "`realise` is a MODEL of dataframe.empty / pandas block allocation (numpy dtypes are kept, 'S<n>' becomes object, "
-    "a datetime column named in the timezones is localised, masked index -> int64); pandas itself is not modelled - "
+    "a datetime column named in the timezones is localised, an index keeps its dtype); pandas itself is not modelled - "
     "tied to the real code by the realise correspondence on every column of every case",
     "Python `in` on str = `contains` on the UTF-8 bytes (ASCII needles)",
     "footers without Statistics / without null_count are produced by rewriting the footer of a written file on disk (same steps as "
